@@ -12,8 +12,11 @@ VARIABLES n,         \* number of modules
           startsOk, stopCalls,
           inCall,    \* API call in progress: "none" | "start" | "manage" | "shutdown"
           anyStart,  \* some start routine has begun
-          dirty      \* Enable/Disable happened while a call was in progress (wanted set ambiguous)
-avars == <<n, deps, mgmt, enabled, ph, startsOk, stopCalls, inCall, anyStart, dirty>>
+          dirty,     \* Enable/Disable happened while a call was in progress (wanted set ambiguous)
+          panicked,  \* a lifecycle routine begun by the call in progress panicked (C06)
+          callNo,    \* number of API calls so far
+          cbCall     \* [1..n -> number of the call during which the module's running routine began]
+avars == <<n, deps, mgmt, enabled, ph, startsOk, stopCalls, inCall, anyStart, dirty, panicked, callNo, cbCall>>
 
 Mods == 1..n
 RevDeps(m) == {r \in Mods : m \in deps[r]}
@@ -24,20 +27,24 @@ Online == {m \in Mods : ph[m] = "online"}
 Prepped(m) == ph[m] \in {"offline", "starting", "online", "stopping"}
 
 AbsInit == /\ n = 0 /\ deps = <<>> /\ mgmt = FALSE /\ enabled = <<>> /\ ph = <<>>
-           /\ startsOk = <<>> /\ stopCalls = <<>> /\ inCall = "none" /\ anyStart = FALSE /\ dirty = FALSE
+           /\ startsOk = <<>> /\ stopCalls = <<>> /\ inCall = "none" /\ anyStart = FALSE /\ dirty = FALSE /\ panicked = FALSE
+           /\ callNo = 0 /\ cbCall = <<>>
 
 Reg(k, d, mg, en) ==
     /\ n' = k /\ deps' = d /\ mgmt' = mg /\ enabled' = en
     /\ ph' = [m \in 1..k |-> "dead"]
     /\ startsOk' = [m \in 1..k |-> 0] /\ stopCalls' = [m \in 1..k |-> 0]
-    /\ inCall' = "none" /\ anyStart' = FALSE /\ dirty' = FALSE
+    /\ inCall' = "none" /\ anyStart' = FALSE /\ dirty' = FALSE /\ panicked' = FALSE
+    /\ callNo' = 0 /\ cbCall' = [m \in 1..k |-> 0]
 
-Call(op) == /\ inCall = "none" /\ inCall' = op /\ dirty' = FALSE
-            /\ UNCHANGED <<n, deps, mgmt, enabled, ph, startsOk, stopCalls, anyStart>>
+Call(op) == /\ inCall = "none" /\ inCall' = op /\ dirty' = FALSE /\ panicked' = FALSE
+            /\ callNo' = callNo + 1
+            /\ UNCHANGED <<n, deps, mgmt, enabled, ph, startsOk, stopCalls, anyStart, cbCall>>
 
 \* online: the Online() flags the harness read right after the call returned
 Ret(op, ok, online) ==
     /\ inCall = op /\ inCall' = "none"
+    /\ panicked => ~ok       \* a panicking lifecycle routine makes Start / ManageModules / Shutdown return an error (C06)
     /\ (op \in {"start", "manage"} /\ ok) =>
           /\ \A m \in Mods : ph[m] \notin {"prepping", "starting", "stopping"}
           /\ dirty \/ Online = Wanted
@@ -46,11 +53,11 @@ Ret(op, ok, online) ==
           /\ \A m \in Mods : ph[m] \notin {"starting", "online", "stopping"}
           /\ \A m \in Mods : stopCalls[m] = startsOk[m]
           /\ \A m \in Mods : ~online[m]
-    /\ UNCHANGED <<n, deps, mgmt, enabled, ph, startsOk, stopCalls, anyStart, dirty>>
+    /\ UNCHANGED <<n, deps, mgmt, enabled, ph, startsOk, stopCalls, anyStart, dirty, panicked, callNo, cbCall>>
 
 Toggle(m, on) == /\ enabled' = [enabled EXCEPT ![m] = on]
                  /\ dirty' = (dirty \/ inCall # "none")
-                 /\ UNCHANGED <<n, deps, mgmt, ph, startsOk, stopCalls, inCall, anyStart>>
+                 /\ UNCHANGED <<n, deps, mgmt, ph, startsOk, stopCalls, inCall, anyStart, panicked, callNo, cbCall>>
 
 Begin(m, c) ==
     /\ CASE c = "prep"  -> /\ ph[m] = "dead"                       \* once
@@ -68,9 +75,10 @@ Begin(m, c) ==
                            /\ ph' = [ph EXCEPT ![m] = "stopping"]
                            /\ stopCalls' = [stopCalls EXCEPT ![m] = @ + 1]
                            /\ UNCHANGED anyStart
-    /\ UNCHANGED <<n, deps, mgmt, enabled, startsOk, inCall, dirty>>
+    /\ cbCall' = [cbCall EXCEPT ![m] = callNo]
+    /\ UNCHANGED <<n, deps, mgmt, enabled, startsOk, inCall, dirty, panicked, callNo>>
 
-End(m, c, ok) ==
+End(m, c, ok, pan) ==
     /\ CASE c = "prep"  -> /\ ph[m] = "prepping"
                            /\ ph' = [ph EXCEPT ![m] = IF ok THEN "offline" ELSE "prepfailed"]
                            /\ UNCHANGED startsOk
@@ -80,5 +88,6 @@ End(m, c, ok) ==
          [] c = "stop"  -> /\ ph[m] = "stopping"
                            /\ ph' = [ph EXCEPT ![m] = "offline"]
                            /\ UNCHANGED startsOk
-    /\ UNCHANGED <<n, deps, mgmt, enabled, stopCalls, inCall, anyStart, dirty>>
+    /\ panicked' = (panicked \/ (pan /\ inCall # "none" /\ cbCall[m] = callNo))
+    /\ UNCHANGED <<n, deps, mgmt, enabled, stopCalls, inCall, anyStart, dirty, callNo, cbCall>>
 ====
